@@ -87,8 +87,7 @@ def run_seeded(prop, rule_names, scratch, repo='/repo'):
         for rec in vcheck.merge(records):
             if rec['kind'] != 'violation':
                 continue
-            flt = R.FILTER.get((prop, rec['rule']))
-            if flt and not re.search(flt, rec['file']):
+            if not R.attributed(prop, rec):
                 continue
             if vcheck.match_known(rec, prop, known):
                 continue
@@ -146,8 +145,7 @@ def run_refactors(prop, rule_names, scratch, repo='/repo'):
                 anchors.setdefault(rec['rule'], set()).add(rec['construct'])
             if rec['kind'] != 'violation':
                 continue
-            flt = R.FILTER.get((prop, rec['rule']))
-            if flt and not re.search(flt, rec['file']):
+            if not R.attributed(prop, rec):
                 continue
             if vcheck.match_known(rec, prop, known):
                 continue
